@@ -9,6 +9,29 @@ CHECKS = {
    text="Enumerates fault histories (listing failure, fingerprint bumps of package/dependency/skipped dependency, export-file deletion, HashInvalid, save+load) — thorough: all histories of length<=5 over 11 operations plus random long ones — and every cache-file corruption of a fixed family; each Find/ListTimes observation is decided by a model of the property statement; concurrent histories are recorded at the client boundary and checked with porcupine; all under the race detector.",
    note="trusted: the stub go lists exactly what is asked; fingerprints unique and monotone; porcupine; race detector. The list-then-fingerprint window of Prepare is a recorded known finding (KF-C20-TOCTOU).", ref="DESIGN.md §2 C20"),
 }
+CHECKS.update({
+ "C10": dict(level="exploration", technique="runtime monitoring with a reference model: HandleErr deliveries of front-end driven builds vs go/types diagnostics on the same generated function bodies",
+   text="Differential monitor: for systematically enumerated and random function bodies the multiset of missing-return / unused-label / duplicate-label diagnostics delivered to HandleErr must equal go/types'. Exploration of an unbounded space of bodies.",
+   note="trusted: go/types' implementation of terminating statements and label rules; bodies with other errors are skipped; with duplicated label names the use attribution is the front end's and is not compared", ref="DESIGN.md §2 C10"),
+ "C12": dict(level="exploration", technique="round-trip monitoring of the forked printer: print -> go/parser -> structural dump comparison, go/format fixed point, comment placement, on position-stripped standard-library files and generated trees",
+   text="Oracle observing executions of the real formatter path on thousands of trees: output parses, re-parsed structure equals the input tree, output is a go/format fixed point, attached comments appear once directly before their statement.",
+   note="trusted: go/parser, go/format, go/printer (as legality guard for generated trees). One recorded finding (KF-C12-INDENT, whitespace only).", ref="DESIGN.md §2 C12"),
+ "C13": dict(level="exploration", technique="round-trip monitoring: builder-held types.Type -> emitted type syntax -> go/types re-check -> cross-universe type identity",
+   text="Every declared object's type is re-read from the emitted source with the same importer objects and compared for identity; random type algebra to depth 5 incl. tags, embedding, channel direction nestings, unions, instantiations, equal-base-name packages.",
+   note="trusted: go/types identity; the front end's construction of types.Type from syntax (validated on the corpus)", ref="DESIGN.md §2 C13"),
+ "C14": dict(level="exploration", technique="runtime monitoring of API-built scenarios: emitted zero values re-checked by go/types in 5 positions",
+   text="For random types the zero value is synthesised through ZeroLit, T(), ReturnErr padding and omitted optional arguments; Go must accept the emitted package, `y := <zero>` must have exactly type T and the reported type must be T.",
+   note="trusted: go/types; typing only (no execution). Recorded finding KF-C14-UNTYPED (bare untyped literals).", ref="DESIGN.md §2 C14"),
+ "C15": dict(level="exploration", technique="replay monitoring: repeated in-process builds under heap perturbation and cross-process builds under different GOGC/GOMAXPROCS, SHA-256 comparison of every written file",
+   text="The same operation sequence is built 6x in-process (warm and fresh importer, garbage + forced GC between builds) and 3x in fresh processes; any byte difference is a violation. Programs chosen to contain unordered items (several XGo dependencies, overload families, imports, files).",
+   note="trusted: byte comparison; Go's per-iteration map order randomisation as the perturbation source", ref="DESIGN.md §2 C15"),
+ "C16": dict(level="exploration", technique="online invariant monitor at the builder's public observation points (InternalStack/Scope/Func/InVBlock/LookupLabel) after every operation of front-end driven builds",
+   text="Assertions after every operation (documented arity), statement (stack base, scope, function, vblock), expression (+1) and function/closure (label context) over generated programs nested to depth 8, multi-file splits, the corpus and statement-level error-recovery histories.",
+   note="trusted: the arity table of internal/fe (validated on the repository's corpus)", ref="DESIGN.md §2 C16"),
+ "C18": dict(level="exploration", technique="Go race detector over concurrent front-end driven builds with injected Gosched at operation boundaries + byte comparison with sequential builds",
+   text="Rounds of 2-12 goroutines building different programs with own Package/Config/importer under -race; every race report is a violation; each package's concurrent output must equal its sequential output.",
+   note="trusted: Go race detector (reports only races that occurred); schedules are those the scheduler and Gosched injection produced", ref="DESIGN.md §2 C18"),
+})
 ENGINES = [
  {"name":"h","path":"internal/h","serves_properties":sorted(CHECKS),"kind_free_text":"supervisor/worker isolation, journals, resource watchdog, known-finding matcher, evidence writer"},
  {"name":"ref","path":"internal/ref","serves_properties":sorted(CHECKS),"kind_free_text":"reference oracles: go/types wrappers, shared importer, canonical typed dump, cross-universe type identity"},
